@@ -85,6 +85,8 @@ CaughtUpOk(sl, tb, ch, mn, t) ==
       /\ \A x \in 1..Len(mn[u].F) : (mn[u].F[x] < t /\ tb[u] # 0) => mn[u].last > mn[u].F[x]
       /\ (ch = {} /\ t > mn[u].L /\ \A x \in 1..Len(mn[u].F) : mn[u].F[x] < t) => tb[u] = 0
 
+(* a task that has left the queue is gone: runs of it no longer count for a later task of the same name *)
+Forget(rs, tb) == [u \in Uids |-> IF tb[u] = 0 THEN {} ELSE rs[u]]
 (* ---- actions ---- *)
 Tick == /\ now < MaxNow /\ \E d \in {1, 2} : now' = now + d
         /\ ok' = (ok /\ CaughtUpOk(slot, table, chld, mon, now'))
@@ -102,7 +104,7 @@ DeliverPer(u) ==
   /\ s # 0 /\ slot[s].pend
   /\ IF slot[s].unschedcb
      THEN LET x == Unsched([slot EXCEPT ![s].pend = FALSE], table, s) IN
-          /\ slot' = x.sl /\ table' = x.tb /\ UNCHANGED <<chld, nextpid, mon, runsince>>
+          /\ slot' = x.sl /\ table' = x.tb /\ UNCHANGED <<chld, nextpid, mon>> /\ runsince' = Forget(runsince, x.tb)
           /\ ok' = (ok /\ CaughtUpOk(x.sl, x.tb, chld, mon, now))
      ELSE (* task_cb() *)
           LET t == slot[s]
@@ -115,7 +117,7 @@ DeliverPer(u) ==
               ch2 == IF sup THEN chld \cup {[pid |-> nextpid, s |-> s, exited |-> FALSE, pend |-> FALSE]} ELSE chld
               mn2 == [mon EXCEPT ![u].runs = @ + 1, ![u].last = now]
           IN /\ slot' = x.sl /\ table' = x.tb /\ chld' = ch2 /\ nextpid' = nextpid + 1 /\ mon' = mn2
-             /\ runsince' = IF sup THEN [runsince EXCEPT ![u] = @ \cup {nextpid}] ELSE runsince
+             /\ runsince' = Forget(IF sup THEN [runsince EXCEPT ![u] = @ \cup {nextpid}] ELSE runsince, x.tb)
              /\ ok' = (ok /\ SpawnOk(u, norun, now) /\ CaughtUpOk(x.sl, x.tb, ch2, mn2, now))
   /\ UNCHANGED <<now, nreq>>
 ChildExit(c) == /\ c \in chld /\ ~c.exited
@@ -134,7 +136,8 @@ DeliverChld(c) ==
         THEN LET x == Unsched(sl2, table, s) IN slot' = x.sl /\ table' = x.tb /\ ok' = (ok /\ CaughtUpOk(x.sl, x.tb, ch2, mon, now))
         ELSE slot' = sl2 /\ table' = table /\ ok' = (ok /\ CaughtUpOk(sl2, table, ch2, mon, now))
   /\ chld' = chld \ {c}
-  /\ UNCHANGED <<now, nextpid, nreq, mon, runsince>>
+  /\ runsince' = Forget(runsince, table')
+  /\ UNCHANGED <<now, nextpid, nreq, mon>>
 (* _eject_task1() *)
 Cancel(u) ==
   /\ nreq < MaxReq /\ table[u] # 0
